@@ -18,8 +18,8 @@ func init() {
 			Technique: "taint rule from template-derived integers to reflect index/slice sinks with the package's own bounds checker as sanitiser, guard facts for reflect conversions and unexported fields, error-discipline of the resolver's failing paths, and a who-may-look-up rule for the access evaluators",
 			Explanation: "The guard structure around reflect calls that panic, not what reflection returns: (C06.bounds) every integer argument of reflect.Value.Index/Slice/Slice3 reachable from Execute is the result of " +
 				"indexArg (which returns only when 0 <= x < cap), an interpreter-internal counter bounded by Len(), or lies behind explicit facts 0 <= low <= high <= Len() whose failing branch is " +
-				"no-return; Slice is only applied to a value whose kind was tested. (C06.conv) every reflect Convert is reached only after ConvertibleTo on the same value (or the []byte→string " +
-				"kind test) and its result is used. (C06.unexp) a struct field value returned by resolveIndex comes from the exported-only cache (buildCache stores a field only under PkgPath == \"\") " +
+				"no-return; Slice is only applied to a value whose kind was tested. (C06.conv) every reflect Convert is reached only after ConvertibleTo on the same value (a test of the element " +
+				"kind is not one) and its result is used. (C06.unexp) a struct field value returned by resolveIndex comes from the exported-only cache (buildCache stores a field only under PkgPath == \"\") " +
 				"or lies behind the PkgPath test. (C06.nil) resolveIndex tests for a nil interface before MethodByName, indirect() stops at nil, every failing return of the resolver carries a " +
 				"non-nil error, the only (zero value, nil error) result is the absent map key at the end of a chain, and promoted fields are reached by a walker that tests IsNil before Elem (never reflect.Value.FieldByIndex/FieldByName, which panic on a nil embedded pointer — also when a field is assigned). (C06.same) a.b, a.b.c, a[\"b\"] and isset all resolve through resolveIndex " +
 				"and perform no reflect lookup of their own. (C06.cache) every value stored into the struct field-index cache (the per-type map and each field's index path) is a fresh allocation made for that entry, never storage shared with a sibling path or the caller. (C06.cache, continued) buildCache writes an entry only where none exists or the new index path is not longer (the shallowest field wins, as in Go); the field table resolveIndex consults is the one found in or stored into the package-level map on every path. (C06.nil, continued) indirect() returns a non-nil result only for a value that is neither pointer nor interface. (C06.same, continued) the name argument of resolveIndex is a node's field/identifier name, or empty together with an evaluated index value (never a string literal's text); the method lookup takes the address of every addressable value that is neither pointer nor interface; every store into a template variable and every read from the scope chain agree on unwrapping interfaces. (C06.cache, continued) buildCache's walk is depth first, so an existing entry is replaced when a field at a shallower depth has the same name.",
@@ -28,6 +28,7 @@ func init() {
 			Trusted:     commonTrusted,
 		},
 		Mutants: []Mutant{
+			{Name: "byte slices converted to string after a test of the element kind only (original defect)", File: "eval.go", Old: "right.Type().Elem().Kind() == reflect.Uint8 && right.Type().ConvertibleTo(left.Type()) {", New: "right.Type().Elem().Kind() == reflect.Uint8 {", Rule: "C06.conv"},
 			{Name: "promoted fields overwrite outer fields (original defect)", File: "eval.go", Old: "\t\tif old, ok := cache[field.Name]; !ok || len(index) <= len(old) {\n\t\t\tcache[field.Name] = index\n\t\t}", New: "\t\tcache[field.Name] = index", Rule: "C06.cache"},
 			{Name: "deeper field wins", File: "eval.go", Old: "!ok || len(index) <= len(old) {", New: "!ok || len(index) >= len(old) {", Rule: "C06.cache"},
 			{Name: "equivalent: depth test mirrored", File: "eval.go", Old: "!ok || len(index) <= len(old) {", New: "!ok || len(old) >= len(index) {", Rule: "-"},
